@@ -87,8 +87,9 @@ func c09Path(p string) (*c09Kernels, string) {
 
 // guarded is an mmap'ed area with PROT_NONE pages on both sides.
 type guarded struct {
-	all  []byte
-	data []byte // the accessible middle
+	window bool // carve returns slices whose capacity extends beyond their length
+	all    []byte
+	data   []byte // the accessible middle
 }
 
 const pageSize = 4096
@@ -125,6 +126,10 @@ func (g *guarded) carve(n, align int, high bool) []byte {
 		}
 	} else {
 		start = align
+	}
+	if g.window {
+		// a window into the larger area: capacity reaches to the end of it (what lies behind is canary bytes, then the guard)
+		return g.data[start : start+n]
 	}
 	return g.data[start : start+n : start+n]
 }
@@ -275,7 +280,14 @@ func c09Run(ci interface{}, r *core.Rec) {
 		n := 0
 		for as := 0; as < aligns; as++ {
 			for ad := 0; ad < aligns; ad++ {
-				for _, high := range []bool{true, false} {
+				for hi := 0; hi < 3; hi++ {
+					// placement: against the upper guard, against the lower guard, and (small shapes) against the lower guard
+					// as a window whose capacity extends over the canary area behind it
+					high := hi == 0
+					gin.window, gout.window = hi == 2, hi == 2
+					if hi == 2 && L > 1000 {
+						continue
+					}
 					for ci, cc := range consts {
 						if L > 1000 && ci%3 != 0 {
 							continue
@@ -325,6 +337,7 @@ func c09Run(ci interface{}, r *core.Rec) {
 				}
 			}
 		}
+		gin.window, gout.window = false, false
 		// in == out aliasing, as used by Matrix.scaleRow
 		if L > 0 {
 			buf := gin.carve(L, 0, true)
@@ -357,7 +370,7 @@ func init() {
 		AltArch: true,
 		Level:   "model_checking",
 		Rule: "complete over values: for every dispatch path (SSSE3 assembly, non-SSSE3 assembly via the forced flag, portable Go byte kernels, the little-endian cast path, the []T kernels used by Matrix with the dispatch flag on and off, and the real non-amd64 dispatch (byte and []T kernels) in a GOARCH=386 worker) x every constant c (65536) x a buffer holding every word value (65536) x {Mul, MulAndAdd against a prior content}. " +
-			"Shapes: every even length 0..200 and {65534,65536,65538,131070,131072,131074,262178} x every (src,dst) alignment pair mod 16 (4x4 for the large ones) x 8 constants x placement against the upper / lower PROT_NONE guard page, plus in==out aliasing. " +
+			"Shapes: every even length 0..200 and {65534,65536,65538,131070,131072,131074,262178} x every (src,dst) alignment pair mod 16 (4x4 for the large ones) x 8 constants x placement against the upper / lower PROT_NONE guard page, and (lengths <= 200) as a window of a larger area whose capacity extends beyond the length, plus in==out aliasing. " +
 			"Oracle: out[i]==ref(c,in[i]) (xor prior); input unchanged; guard pages (faults become panics via SetPanicOnFault) and canary bytes detect any access outside the buffers. non-trivial = every executed case",
 		Assumptions: []string{"'no SSSE3' is simulated by forcing the dispatch flag (build-tagged hook)", "big-endian hosts are reached only through the exported portable byte kernels"},
 		NewCase:     func() interface{} { return &c09Case{} },
